@@ -625,7 +625,10 @@ func runElements(c *mc.Ctx, r *mc.Result) {
 	// the longest textual forms of an address: fully written IPv6 (39 characters), IPv6 with a dotted-quad tail (up
 	// to 45), with zone, brackets and port around them
 	for _, core := range []string{"2606:4700:0000:0000:0000:0000:0000:0001", "0000:0000:0000:0000:0000:ffff:188.114.96.10", "0064:ff9b:0000:0000:0000:0000:188.114.196.110",
-		"0000:0000:0000:0000:0000:0000:0010.0000.0000.0001", "fe80:0000:0000:0000:0000:0000:0000:0001%eth0", "2606:4700:0000:0000:0000:0000:0000:00001"} {
+		"0000:0000:0000:0000:0000:0000:0010.0000.0000.0001", "fe80:0000:0000:0000:0000:0000:0000:0001%eth0", "2606:4700:0000:0000:0000:0000:0000:00001",
+		// every spelling of the unspecified address (IPv4, IPv6, IPv4 written inside IPv6) is no address of a client
+		"0.0.0.0", "::", "::ffff:0.0.0.0", "::ffff:0:0", "0:0:0:0:0:ffff:0.0.0.0", "0000:0000:0000:0000:0000:ffff:0000:0000", "::0.0.0.0", "0:0:0:0:0:0:0:0", "::%eth0", "::ffff:0.0.0.0%eth0",
+		"::ffff:0.0.0.1", "::1.0.0.0"} {
 		for _, form := range []string{"%s", "[%s]", "[%s]:443"} {
 			idx++
 			if c.Mine(idx) {
